@@ -108,7 +108,8 @@ def setup():
     os.makedirs(os.path.join(d, pk))
     open(os.path.join(d, pk, '__init__.py'), 'w').close()
     with open(os.path.join(d, pk, 'util.py'), 'w') as fh:
-      fh.write("import gin\n\n@gin.configurable\ndef %s(x=None):\n  return x\n" % fn)
+      fh.write("import gin\n\n@gin.configurable\ndef %s(x=None):\n  return x\n\n\nclass Blocks:\n  @gin.configurable\n"
+               "  class Residual_%s:\n    def __init__(self, channels=None):\n      self.channels = channels\n" % (fn, fn))
   sys.path.insert(0, d)
   import atexit
   atexit.register(lambda: shutil.rmtree(d, ignore_errors=True))
@@ -611,9 +612,10 @@ def run_dynorder(case, res):
   """Configurables registered by their libraries (no import statement of the config names them) whose modules share the
   last component: the aliases config_str() hands out must not depend on the order in which the bindings were made."""
   items = [('c06qa.util.fa.x', 1), ('c06qb.util.fb.x', 2),
-           ('c06qc.util.fc.x', cfg.ConfigurableReference('c06qb.util.fb', True))]
+           ('c06qc.util.fc.x', cfg.ConfigurableReference('c06qb.util.fb', True)),
+           ('c06qa.util.Residual_fa.channels', 16)]           # a nested class registered by its library
   texts = {}
-  for perm in itertools.permutations(range(3)):
+  for perm in itertools.permutations(range(4)):
     harness.hard_reset()
     gin.parse_config(HEAD)
     for i in perm:
@@ -630,16 +632,16 @@ def run_dynorder(case, res):
     res.violation('dynamic_text_depends_on_order', 'dynamic registration: bindings made in the order %r give\n%s\n--- in the '
                   'order %r:\n%s' % (a[0], a[1], b[0], b[1]), case)
     return
-  text = texts[(0, 1, 2)]
+  text = texts[(0, 1, 2, 3)]
   harness.hard_reset()
   try:
     gin.parse_config(text)
     import c06qa.util as A, c06qc.util as C  # pylint: disable=import-outside-toplevel,multiple-imports
-    got = (gin.get_configurable(A.fa)(), gin.get_configurable(C.fc)())
+    got = (gin.get_configurable(A.fa)(), gin.get_configurable(C.fc)(), A.Blocks.Residual_fa().channels)
   except Exception as e:  # pylint: disable=broad-except
     res.violation('dynamic_config_str_unparseable', 'implicit imports with colliding names: %r\n%s' % (e, text), case)
     return
-  if got != (1, 2):
+  if got != (1, 2, 16):
     res.violation('dynamic_roundtrip_objects', 'implicit imports with colliding names: the re-parsed text gives %r\n%s' % (got, text), case)
   else:
     res.w('implicit_colliding_imports_order_free')
